@@ -248,7 +248,7 @@ PROPS = {
         "level": "exploration",
         "technique": "model-based property testing: bounded-exhaustive enumeration of operation sequences (subscribe, add handler with/without own resync period, remove handlers, close, outside object events) over a real SharedInformerFactory running against the API-server simulator's LIST/WATCH, rapid-random longer sequences, and the same operations from concurrent goroutines under the race detector; oracle = open-subscription model vs watch streams seen by the server, per-handler event logs (replay on add, at-least-once delivery while registered, nothing after removal)",
         "level_text": "real informers, real reflectors and real goroutines against the simulator; ordering is made deterministic by condition barriers (poll until the watch count / handler log reaches the expected state, generous timeouts)",
-        "rule": ("exhaustive: all sequences of length 3 (quick) / 4 (thorough) over 2 subscribers and 1 resource from the enabled operations; random: 2-3 subscribers, 1-2 resources, 4-17 operations; concurrent (race build): 2-5 goroutines with 3-10 operations each plus an outside writer; "
+        "rule": ("exhaustive: all sequences of length 4 (quick) / 5 (thorough) over 2 subscribers and 1 resource from the enabled operations; random: 2-3 subscribers, 1-2 resources, 4-17 operations; concurrent (race build): 2-5 goroutines with 3-10 operations each plus an outside writer; "
                  "non-trivial = the sequence contains a close-to-zero followed by a re-subscribe, or a remove/close while another subscriber is active (concurrent runs: always); distinct = distinct choice sequences"),
         "level_note": "A1 toolchain/libraries; A2 the simulator's LIST/WATCH (resourceVersion-ordered event log, one stream per watch) stands in for the API server; delivery is judged with timeouts of 5 s (a timeout is reported as a violation because every wait has a precise expected state); the race detector only reports races on interleavings that actually occur",
         "jobs": [
